@@ -10,7 +10,11 @@ if ! git merge --no-commit --no-ff agent$a >/tmp/merge_$a.log 2>&1; then
     git add $f 2>/dev/null || true
   done
 fi
-git diff --name-only --diff-filter=U
+# property files are owned by the agents: on conflict take the agent's version
+for f in $(git diff --name-only --diff-filter=U); do
+  echo "conflict in $f: taking agent version"
+  git checkout --theirs -- "$f" && git add "$f"
+done
 python3 tools/gen.py
 /venv/bin/python tools/extract.py
 /venv/bin/python tools/fingerprint.py --update
